@@ -4,7 +4,7 @@ import PV.Model.Tree.RB
 import PV.Model.Tree.Run
 import PV.Driver.Util
 /-! driver for the tree family (C12, C13, C14).
-    ops:  new bst|rb|avl [plain|konly|vonly|data|wide|nk=ORD]… | ins ORD | insv ORD | insk | inskv | insf ORD | rem ORD | remn |
+    ops:  new bst|rb|avl [plain|konly|vonly|data|wide|nk=ORD]… | newf … (the same call while the allocator fails) | ins ORD | insv ORD | insk | inskv | insf ORD | rem ORD | remn |
           get ORD | getn | each J | clear | free | shape | count | api
     (`wide`: the harness comparator answers with arbitrary magnitudes — the model's `Ordering` is the sign, nothing to do here;
      `nk=ORD`: the ordinal the NULL key compares as; `remn`/`getn`: the NULL pointer as the probe key; `free`: p_tree_free =
@@ -85,7 +85,7 @@ def doOp (s : St) (op : Op K V) (bump : Bool) : IO (St × Bool) := do
     return ({ s with t := t', spec := sp', next := if bump then s.next + 1 else s.next }, false)
 
 def step (s : St) (toks : List String) : IO (St × Bool) := do
-  if !s.alive && toks.head? != some "new" then
+  if !s.alive && toks.head? != some "new" && toks.head? != some "newf" then
     IO.println "bad-op"; return (s, false)
   match toks with
   | "new" :: ty :: flags =>
@@ -100,6 +100,11 @@ def step (s : St) (toks : List String) : IO (St × Bool) := do
     | "avl" => IO.println "ok"; return (mk (.avl (.nil, 0)), false)
     | "rb" => IO.println "ok"; return (mk (.rb (.nil, 0)), false)
     | _ => IO.println "bad-op"; return (s, false)
+  | "newf" :: ty :: _ =>            -- p_tree_new_full whose allocation fails: NULL, whatever the (valid) arguments; no tree afterwards
+    if newFull (match ty with | "bst" => 0 | "rb" => 1 | _ => 2) true false then
+      IO.println "ok held=1"; return (s, false)
+    else
+      IO.println "fail held=0"; return ({ s with alive := false, spec := [], t := .bst (.nil, 0) }, false)
   | ["ins", o] =>
     match o.toNat? with
     | none => IO.println "bad-op"; return (s, false)
@@ -131,7 +136,12 @@ def step (s : St) (toks : List String) : IO (St × Bool) := do
       IO.println (sd ("d=" ++ fmtLogP mode d) ("d=" ++ sd'))
       return ({ s with alive := false, spec := [] }, false)
     | _ => IO.println "fault"; return (s, true)
-  | ["api"] => IO.println s!"type={s.ty} null-api=ok"; return (s, false)
+  | ["api"] =>                     -- creation with a bad type / without a comparator gives NULL (`newFull`); the NULL-tree calls are no-ops
+    let bad := (if newFull 3 true true then " new(type=3)" else "") ++ (if newFull (-1) true true then " new(type=-1)" else "") ++
+               (if newFull 2 false true then " new(func=NULL)" else "") ++ (if newFull 1 false true then " new_with_data(func=NULL)" else "") ++
+               (if newFull 7 true true then " new_full(type=7)" else "") ++
+               (if newFull 0 true true && newFull 1 true true && newFull 2 true true then "" else " second-tree-type")
+    IO.println s!"type={s.ty}{if bad.isEmpty then " null-api=ok" else bad}"; return (s, false)
   | ["rem", o] =>
     match o.toNat? with
     | none => IO.println "bad-op"; return (s, false)
